@@ -119,10 +119,12 @@ def tla(v):
 
 def run_tlc(model, scratch, workers=8, coverage=True, simulate=None, depth=None,
             seed=None, timeout=900, env=None, extra_args=(), keep_going=False, java_opts=(),
-            want_exports=True, dfs=False):
+            want_exports=True, dfs=False, export_sample=None):
     """Run TLC on model = (module_path, cfg_path) as produced by make_model.
 
     Returns dict(states, distinct, depth, exports, coverage, violated, log, wall_s, rc).
+    export_sample=(cap, seed, must): keep every exported record with must(rec) true and a uniform reservoir sample
+    of `cap` of the others (bounds the memory of runs that export millions of states); res['exports_seen'] counts all.
     `violated` is the name of the first violated invariant / action property, or None.
     """
     spec_path, cfg_path = model
@@ -166,12 +168,30 @@ def run_tlc(model, scratch, workers=8, coverage=True, simulate=None, depth=None,
     res = dict(states=0, distinct=0, depth=0, exports=[], coverage={}, violated=None, log=log_path,
                wall_s=wall, rc=rc, timed_out=timed_out, errors=[], cex=[])
     in_cex = False
+    res['exports_seen'] = 0
+    if export_sample:
+        import random as _random
+        cap, sseed, must = export_sample
+        srng = _random.Random(sseed)
+        musts, pool, nrest = [], [], 0
     with open(log_path, errors='replace') as lf:
         for line in lf:
             if want_exports and line.startswith('"'):
                 rec = _parse_export_line(line)
                 if rec is not None:
-                    res['exports'].append(rec)
+                    res['exports_seen'] += 1
+                    if not export_sample:
+                        res['exports'].append(rec)
+                    elif must(rec):
+                        musts.append(rec)
+                    else:
+                        nrest += 1
+                        if len(pool) < cap:
+                            pool.append(rec)
+                        else:
+                            j = srng.randrange(nrest)
+                            if j < cap:
+                                pool[j] = rec
                     continue
             m = _RE_STATES.search(line)
             if m:
@@ -205,6 +225,8 @@ def run_tlc(model, scratch, workers=8, coverage=True, simulate=None, depth=None,
         if m:
             res['states'] = int(m[-1])
             res['distinct'] = int(m[-1])
+    if export_sample:
+        res['exports'] = musts + pool
     return res
 
 
